@@ -247,4 +247,11 @@ theorem compose_two_source_mem_unit (S : Compose.Setup ℝ) (divs : Nat) (js : C
 example : (⟨⟨1, 2, 2⟩, ⟨1, 2, 2⟩⟩ : Steps2D ℝ).x.n = 2 ∧ (⟨⟨1, 2, 2⟩, ⟨1, 2, 2⟩⟩ : Steps2D ℝ).y.n = 2 :=
   ⟨rfl, rfl⟩
 
+/-- non-vacuity of the outcome hypotheses (`hjs`, `hJ`, `hq`): for the concrete unpoled KTP setup
+`Compose.exGrid` (explicit idler, 775 → 1500 + 1603 nm) the spectrum object (Simpson-50), the
+joint-spectrum view and the Simpson rule all exist over ℝ (`Compose.grid_hypotheses_satisfiable`
+shows the same for every unpoled explicit-idler setup with `0 ≠ λ_p < λ_s`) -/
+example : ∃ js J q, Compose.jointSpectrum Compose.exGrid 50 = .ok js ∧ Compose.jsetup Compose.exGrid = .ok J ∧
+    (Compose.simpsonRule 50 : Outcome (List (ℝ × ℝ) × ℝ)) = .ok q := Compose.exGrid_available
+
 end Spdc.Props.C10
